@@ -65,8 +65,8 @@ PROPS = {
                 fam('buf', 'tlc', 8, 16, shards=8, gen={'module': 'GenBuffer', 'cfg': 'GenBuffer.cfg', 'arg': '-chains', 'cover': 250,
                     'quick': {'MAXLEN': '2', 'KINDS': '{"del", "ins", "put", "mrg", "t", "f"}', 'WIDTHS': '{"w2", "w8", "s1", "s128"}',
                               'MOVES': '{"same", "next", "m128", "m16384", "back", "home"}'},
-                    'thorough': {'MAXLEN': '3', 'KINDS': '{"del", "put", "mrg", "f"}', 'WIDTHS': '{"w2", "w4", "w8", "s0", "s127", "s128"}',
-                                 'MOVES': '{"same", "next", "small", "m128", "m16384", "jump", "back", "home"}'},
+                    'thorough': {'MAXLEN': '3', 'KINDS': '{"del", "put", "mrg", "f"}', 'WIDTHS': '{"w2", "w8", "s0", "s128"}',
+                                 'MOVES': '{"same", "next", "m16384", "jump", "back", "home"}'},
                     'quick_all': True, 'thorough_all': True}),
                 fam('buf', 'rnd', 16, 400, shards=8)]},
     'C06': seq_prop('c06', 60, 1500, mc=[MC_CONC_STRICT, MC_CONC_LOG, MC_CONC_ASBUILT, MC_CONC_NEG],
